@@ -247,11 +247,17 @@ impl<M: GuestAddressSpace> VringState<M> {
 
     /// Read event from the kick `EventFd`.
     fn read_kick(&self) -> io::Result<bool> {
+        // Leave the event pending while the vring is disabled, so that a kick raised
+        // right before the vring was disabled is delivered once it is enabled again.
+        if !self.enabled {
+            return Ok(false);
+        }
+
         if let Some(kick) = &self.kick {
             kick.consume()?;
         }
 
-        Ok(self.enabled)
+        Ok(true)
     }
 
     /// Set `EventFd` for call.
